@@ -150,6 +150,19 @@ def r2_folding(a, tier):
                     for x in ast.walk(ast.Module(body=n.body, type_ignores=[])):
                         if isinstance(x, ast.Call) and isinstance(x.func, ast.Attribute) and x.func.attr == 'upper':
                             ok = True
+        if not ok:
+            # ... or in a module-level helper that is handed the setting: _normalized(keywords, self.config.ignorecase) ... `if ignorecase:`
+            for c in [x for x in walk_no_defs(fn.node) if isinstance(x, ast.Call) and isinstance(x.func, ast.Name) and x.func.id in fn.module.functions]:
+                h = fn.module.functions[c.func.id]
+                bound = {p_: norm(v) for p_, v in zip(h.params, c.args)} | {k.arg: norm(k.value) for k in c.keywords if k.arg}
+                flags = {p_ for p_, v in bound.items() if v in cond_names}
+                for n in walk_no_defs(h.node):
+                    if isinstance(n, ast.If):
+                        conj = n.test.values if isinstance(n.test, ast.BoolOp) else [n.test]
+                        if any(isinstance(t_, ast.Name) and t_.id in flags for t_ in conj) and any(
+                                isinstance(x, ast.Call) and isinstance(x.func, ast.Attribute) and x.func.attr == 'upper'
+                                for x in ast.walk(ast.Module(body=n.body, type_ignores=[]))):
+                            ok = True
         rep.add({'table_normalised_in': fn.qualname, 'upper_iff_ignorecase': ok})
         if not ok:
             rep.fail(fn.qualname, 'table-fold', f'{fn.qualname} does not upper-case the keyword table under ignorecase while the '
